@@ -19,6 +19,9 @@ pub struct Tcp {
     pub eof: bool,
     /// the client idles this long before it answers the authentication cookie request
     pub cookie_delay: Option<Duration>,
+    /// while Some: everything "sent" is collected here and goes out in ONE write when the client next waits for the server
+    /// (a PROXY header and the first frames in the same segment)
+    pub corked: Option<Vec<u8>>,
 }
 
 pub enum Recv {
@@ -35,16 +38,32 @@ impl Tcp {
         }
         let s = sock.connect(addr).await?;
         s.set_nodelay(true)?;
-        Ok(Tcp { s, enc: None, dec: None, inbuf: vec![], bytes_received: 0, t0: Instant::now(), eof: false, cookie_delay: None })
+        Ok(Tcp { s, enc: None, dec: None, inbuf: vec![], bytes_received: 0, t0: Instant::now(), eof: false, cookie_delay: None, corked: None })
     }
     pub fn from_stream(s: TcpStream) -> Self {
-        Tcp { s, enc: None, dec: None, inbuf: vec![], bytes_received: 0, t0: Instant::now(), eof: false, cookie_delay: None }
+        Tcp { s, enc: None, dec: None, inbuf: vec![], bytes_received: 0, t0: Instant::now(), eof: false, cookie_delay: None, corked: None }
     }
     pub fn ms(&self) -> u64 {
         self.t0.elapsed().as_millis() as u64
     }
     pub async fn send_raw(&mut self, b: &[u8]) -> bool {
+        if let Some(c) = &mut self.corked {
+            c.extend_from_slice(b);
+            return true;
+        }
         self.s.write_all(b).await.is_ok()
+    }
+    /// From now on collect what is sent; it leaves in one write at the next `recv` / `wait_eof` / `uncork`.
+    pub fn cork(&mut self) {
+        if self.corked.is_none() {
+            self.corked = Some(vec![]);
+        }
+    }
+    pub async fn uncork(&mut self) -> bool {
+        match self.corked.take() {
+            Some(c) if !c.is_empty() => self.s.write_all(&c).await.is_ok(),
+            _ => true,
+        }
     }
     pub async fn send_frame(&mut self, id: i32, body: &[u8]) -> bool {
         let mut f = frame(id, body);
@@ -59,6 +78,7 @@ impl Tcp {
     }
     /// Next complete frame, EOF, or nothing within `wait`.
     pub async fn recv(&mut self, wait: Duration) -> Recv {
+        let _ = self.uncork().await;
         let deadline = Instant::now() + wait;
         loop {
             let (frames, used) = split_frames(&self.inbuf);
@@ -107,6 +127,7 @@ impl Tcp {
     }
     /// Waits until the server closes the connection (or `wait` passes); returns the ms at which EOF was seen.
     pub async fn wait_eof(&mut self, wait: Duration) -> Option<u64> {
+        let _ = self.uncork().await;
         let deadline = Instant::now() + wait;
         loop {
             if self.eof {
